@@ -760,11 +760,19 @@ func (e *specEnv) call(n *ECall) specVal {
 	case "unbox":
 		// unbox(x, T): the value of dynamic type T held by interface x
 		v := arg(0)
-		id, ok := n.Args[1].(*EIdent)
-		if !ok {
+		tname := ""
+		switch a := n.Args[1].(type) {
+		case *EIdent:
+			tname = a.Name
+		case *EUn:
+			if id, ok := a.X.(*EIdent); ok && a.Op == "*" {
+				tname = "*" + id.Name
+			}
+		}
+		if tname == "" {
 			e.fail("unbox needs a type name")
 		}
-		t := e.resolveType(id.Name)
+		t := e.resolveType(tname)
 		if isRefLike(t) {
 			return specVal{term: sx("i-val", v.term), typ: t}
 		}
